@@ -190,7 +190,7 @@ func c02Levels(p *Prog, r *Report) {
 		// (the call of the core may sit in a helper of the package the use case hands over to: session.publish)
 		n := 0
 		ok := true
-		for _, g := range localClosure(p, it.fn) {
+		for _, g := range localClosure(p, fi.Key) {
 			info := g.Pkg.TypesInfo
 			for _, s := range p.FlatOf(g).CallSites(it.callee) {
 				n++
